@@ -78,3 +78,6 @@ mod fft;
 mod proof_system;
 
 pub mod prelude;
+
+#[cfg(feature = "verif")]
+pub mod verif;
